@@ -34,6 +34,7 @@ class HistGen:
         self.ts = 10
         self.budget = (1 << 64) - 1  # keeps total supplied below 2^64
         self.forked = False
+        self.big_hidden = set()   # ids whose display must not be amended down (see new_order)
 
     def qty(self, lo=0, may_big=True):
         r = self.rng.random()
@@ -65,6 +66,10 @@ class HistGen:
         # (terminating, but not in our lifetime): hidden is large only if the display is
         h = self.qty(may_big=(k == "I" and v >= (1 << 60))) if k in "IR" else 0
         self.budget -= (v + h)
+        if h >= (1 << 40):
+            self.big_hidden.add(oid)
+        else:
+            self.big_hidden.discard(oid)
         x = r.random()
         if self.tie_ts and x < 0.15:
             ts = self.ts                      # tie with the previous order
@@ -92,7 +97,7 @@ class HistGen:
         same = r.random() < 0.6
         p = self.price if same else self.price + r.choice([1, 2, 50])
         nq = self.qty(0 if self.allow_zero else 1, may_big=False)
-        if t < 0.3:
+        if t < 0.3 or k in self.big_hidden:
             u = "C:%s" % k
             gone = True
         elif t < 0.45:
